@@ -31,7 +31,7 @@ CVECS = {
     'ivec3': numpy.array([1, -2, 3]), 'perm2': numpy.array([1, 0]),
     # multi-axis index blocks (Inflate/Take with index.ndim > 1); idx223 has distinct entries in range(12), dup223 repeats some, idx22 is 2-d
     'idx223': numpy.array([[[5, 0, 7], [2, 9, 4]], [[11, 6, 1], [8, 3, 10]]]), 'dup223': numpy.array([[[5, 0, 7], [2, 5, 4]], [[1, 6, 1], [8, 3, 0]]]),
-    'div4': numpy.array([5, 4, 2, 3]), 'div3': numpy.array([2, 3, 7]), 'idiv4': numpy.array([3, -2, 2, -5]),
+    'dup3b': numpy.array([0, 0, 2]), 'div4': numpy.array([5, 4, 2, 3]), 'div3': numpy.array([2, 3, 7]), 'idiv4': numpy.array([3, -2, 2, -5]),
     'blk22': numpy.array([[0, 1], [1, 0]]), 'blk22b': numpy.array([[1, 1], [0, 0]]), 'blk32': numpy.array([[0, 2], [1, 1], [2, 0]]),
     'idx232': numpy.array([[[5, 0], [7, 2], [9, 4]], [[11, 6], [1, 8], [3, 10]]]), 'idx22': numpy.array([[3, 0], [1, 2]]), 'dup22': numpy.array([[1, 0], [1, 2]]),
 }
@@ -466,6 +466,8 @@ CORPUS = [
     ('takediag', ('mul', ('inflate', ('arg', 'T'), ('cvec', 'dup3') if False else ('cvec', 'perm3'), 3, 2) if False else ('arg', 'N'), ('diagonalize', ('arg', 'x'), 0, 1)), -2, -1),
     ('takediag', ('choose', ('arg', 'c'), ('arg', 'K'), ('arg', 'L')), 0, 1),     # diagonal(choose(i,[a,b])) transposed for square operands (fixed: e605220)
     ('takediag', ('choose', ('arg', 'c'), ('arg', 'K'), ('arg', 'L')), 0, 2),
+    # as many stored entries as rows, first and last row occupied, one row empty (row pointer construction)
+    ('inflate', ('diagonalize', ('arg', 'x'), 0, 1), ('cvec', 'dup3b'), 3, 0), ('inflate', ('diagonalize', ('arg', 'x'), 0, 1), ('cvec', 'dup3b'), 3, 1), ('inflate', ('diagonalize', ('cvec', 'fvec3'), 0, 1), ('cvec', 'dup3b'), 3, 0),
     # integer rewrites that rely on inferred ranges, with operands whose entries have DIFFERENT ranges (non-uniform divisors, loop-dependent divisors)
     ('mod', ('range', 4), ('cvec', 'div4')), ('floordiv', ('range', 4), ('cvec', 'div4')), ('mod', ('add', ('range', 4), ('insertaxis', ('arg', 'n'), 0, 4)), ('cvec', 'div4')),
     ('mod', ('range', 3), ('cvec', 'div3')), ('mod', ('sub', ('range', 4), ('ci', 2)), ('cvec', 'idiv4')), ('floordiv', ('sub', ('range', 4), ('ci', 2)), ('cvec', 'idiv4')),
